@@ -189,11 +189,13 @@ func propConfig(id, verifDir string) PropConfig {
 		return PropConfig{Gen: true, ExtSpecs: ext}
 	case "C17":
 		return PropConfig{Gen: true, Pkgs: []string{"./ygot", "./ytypes"}, ExtSpecs: ext}
+	case "C29":
+		return PropConfig{Gen: true, Pkgs: []string{"./ygot"}, ExtSpecs: ext}
 	case "C24":
 		return PropConfig{Pkgs: []string{"./protomap"}, ExtSpecs: ext}
 	case "C07":
 		return PropConfig{Pkgs: []string{"./util", "./ytypes"}, ExtSpecs: ext}
-	case "C05", "C03", "C29", "C32":
+	case "C05", "C03", "C32":
 		return PropConfig{Pkgs: []string{"./ygot"}, ExtSpecs: ext}
 	case "C16", "C19":
 		return PropConfig{Pkgs: []string{"./ygot", "./ytypes"}, ExtSpecs: ext}
